@@ -241,7 +241,7 @@ fn msys_dispatch(a: &Args, sys: &str, replay: Option<(Vec<String>, String)>) -> 
     use i_tree::map::tree::MapTree;
     use i_tree::set::list::SetList;
     use i_tree::set::tree::SetTree;
-    use msys::{HeapVal, IKey, MFlags, MSys, SVal};
+    use msys::{HeapVal, IKey, MFlags, MSys, SVal, TrackVal};
     let f = MFlags {
         wr: a.flag("wr"),
         delh: a.flag("delh"),
@@ -276,6 +276,10 @@ fn msys_dispatch(a: &Args, sys: &str, replay: Option<(Vec<String>, String)>) -> 
     match (sys, pay) {
         ("maptree", "u16") => go!(MapTree<IKey, u16>),
         ("maptree", "heap") => go!(MapTree<IKey, HeapVal>),
+        ("maptree", "track") => go!(MapTree<IKey, TrackVal>),
+        ("settree", "track") => go!(SetTree<IKey, SVal<TrackVal>>),
+        ("maplist", "track") => go!(MapList<IKey, TrackVal>),
+        ("setlist", "track") => go!(SetList<SVal<TrackVal>>),
         ("maplist", "u16") => go!(MapList<IKey, u16>),
         ("maplist", "heap") => go!(MapList<IKey, HeapVal>),
         ("settree", "u16") => go!(SetTree<IKey, SVal<u16>>),
